@@ -10,8 +10,12 @@ def run(ctx):
                   'released; lock acquisitions are paired on every path', minimum=6)
     rd = ctx.rule('R-DRAIN', 'a worker returns only after seeing the queue empty under the same lock hold; the '
                   'stopped bit is set only by Stop(unique_lock&&)', minimum=2)
+    rc = ctx.rule('R-COUNT', 'packed job counter: unit == 1 << NoJobs shift, flag bits below it, +unit exactly on '
+                  'the accepted path, -unit after every Called job before the count is read again, no other writer',
+                  minimum=8)
     for cfg, fb in sorted(fbs.items()):
         P = 'yaclib::FairThreadPool'
+        lib_exec.check_pool_count(ctx, fb, rc)
         lib_exec.check_submit_linear(ctx, fb, rl, lambda f: f.clsq == P)
         deq = [f for f in fb.fn.values() if f.clsq == P and f.n in ('Loop', 'HardStop') and f.cfg is not None]
         if len(deq) != 2:
